@@ -10,6 +10,16 @@ CHECKS = {
         text="Every (type, tag, value) case is executed on the real codec.Buffer/Reader; bytes are compared with an independent reference encoder, the read-back value bitwise, the reader offset and a following sentinel exactly. 8/16-bit types x 256 tags are enumerated completely; wider types boundary-dense plus seeded random; every narrower reference encoding is fed to every wider reader.",
         note="Trusts the reference encoder in harness/refcodec (written from the wire-format description) and the Go runtime. Wider types are sampled, not enumerated.",
         design="DESIGN.md §4 C02"),
+    "C17": dict(
+        technique="runtime monitor: generating-model oracle over grammar-generated config documents, fault injection with an error-or-complete oracle, hostile bytes under recover()",
+        text="Documents are generated from the config grammar together with their model; the real parser's every getter (GetString/GetMap/GetDomain/GetDomainKey/GetDomainLine and the typed getters) is compared with the model. Nine kinds of syntax fault are injected into valid documents and the oracle accepts an error or a complete parse only. Random and mutated bytes must not panic parser or getters.",
+        note="Trusts the generator's statement of the grammar (trim set ' \\n\\t', first '=' splits, '#' comments, later duplicates win). A key and a sub-domain of one name, keys containing '/', '<', '>' and XML entities/CDATA/']]>' are outside the judged grammar.",
+        design="DESIGN.md §4 C17"),
+    "C18": dict(
+        technique="runtime monitor: model-equality oracle over rendered endpoint strings (all option orders/spacings), registry round trip, real proxy constructor for address lists, hostile strings under recover()",
+        text="Endpoints drawn from a model are rendered in every option permutation (<=5 options) and 48 spacing/flag-form styles, parsed by the real Parse and compared field by field (defaults, weight normalisation, key); the registry route is compared with the model and with the direct route's cache key; address lists (incl. trailing ':') go through the real NewServantProxy; every string of length 0..4 over a 9-symbol alphabet plus seeded random strings must not panic.",
+        note="Trusts the model's statement of defaults (timeout 3000, weight -1, weight normalisation). Numeric option values are plain decimals; IPv6 literals are excluded from ':'-separated lists.",
+        design="DESIGN.md §4 C18"),
 }
 
 NOT_BUILT_REASON = "check not built yet in this session (runtime-monitoring design exists in DESIGN.md §4; machinery in progress) — not claimed until its monitor runs silent on the unchanged tree"
